@@ -12,7 +12,10 @@
                                          | <n> <trace…> killed <0|1> disk <hex|none> load L
     c07.proto gen  <nf> (<act> <op>)… <hasold> <old> <new>
                                          | <n> <trace…> killed <0|1> disk <hex|none> load <hex|none|err>
-  trace tokens: open.<ok> write.<n>.<ok> fsync.<ok> rename.<ok> close.<ok> unlink.<ok>
+    c07.hist file|gen|yaml <hasold> OLD <nsaves> (<nf> (<act> <op>)… NEW)…
+                                         | per save: sv <n> <trace…> killed <0|1> disk <hex|none> load <…>
+      (OLD/NEW: file = T, gen = <hex>, yaml = <cursor> <offset> <bytes of the real encoder>)
+  trace tokens: open.<ok> (openk.<ok>: opened without O_TRUNC) write.<n>.<ok> fsync.<ok> rename.<ok> close.<ok> unlink.<ok>
 -/
 import FileD.Prelude.Tok
 import FileD.Model.OffsetsFile
@@ -285,6 +288,7 @@ def pOk : String → Option Bool := bool?
 def pTraceOp (t : String) : Option SaveProto.Op :=
   match t.splitOn "." with
   | ["open", b] => (pOk b).map .openTrunc
+  | ["openk", b] => (pOk b).map .openKeep
   | ["write", n, b] => do let k ← nat? n; let ok ← pOk b; pure (.write k ok)
   | ["fsync", b] => (pOk b).map .fsync
   | ["rename", b] => (pOk b).map .rename
@@ -294,6 +298,7 @@ def pTraceOp (t : String) : Option SaveProto.Op :=
 
 def encTraceOp : SaveProto.Op → String
   | .openTrunc b => "open." ++ ofBool b
+  | .openKeep b => "openk." ++ ofBool b
   | .write n b => "write." ++ toString n ++ "." ++ ofBool b
   | .fsync b => "fsync." ++ ofBool b
   | .rename b => "rename." ++ ofBool b
@@ -379,12 +384,147 @@ def handleProto (args impl : List String) : Option (String × String) :=
     else none
   | _ => none
 
+/-! ### c07.hist: a history of saves on one directory (left-over temp files are carried along) -/
+
+inductive HVar | file | gen | yaml
+deriving DecidableEq
+
+/-- payload of a save / the old state: the bytes the save writes and how a file holding exactly
+    these bytes loads (canonical string) -/
+def pPayload : HVar → P (Bytes × String)
+  | .file => fun ts => do
+    let (t, r) ← pTable ts
+    pure ((render t, encLoaded (.ok (live t))), r)
+  | .gen => fun ts => do
+    let (b, r) ← pBytes ts
+    pure ((b, Hex.enc b), r)
+  | .yaml => fun ts => do
+    let (c, r) ← pBytes ts
+    let (o, r) ← pInt r
+    let (e, r) ← pBytes r
+    pure ((e, unwords ["y", Hex.enc c, toString o]), r)
+
+def pFaults : Nat → List String → Option (List String)
+  | 0, ts => some ts
+  | n + 1, _ :: _ :: ts => pFaults n ts
+  | _, _ => none
+
+def pHistSave (v : HVar) : P (Bytes × String) := fun ts => do
+  let (nf, r) ← pNat ts
+  let r ← pFaults nf r
+  pPayload v r
+
+/-- number of tokens of a load result in the implementation's record -/
+def takeLoad (v : HVar) (ts : List String) : Option (String × List String) :=
+  match v, ts with
+  | .file, _ => do
+    let (l, r) ← pLoaded ts
+    pure (encLoaded l, r)
+  | .gen, t :: r => some (t, r)
+  | .yaml, "y" :: c :: o :: r => some (unwords ["y", c, o], r)
+  | .yaml, t :: r => some (t, r)
+  | _, [] => none
+
+structure HistObs where
+  ops : List SaveProto.Op
+  killed : Bool
+  disk : Option Bytes
+  load : String
+
+def pHistObs (v : HVar) : Nat → List String → Option (List HistObs)
+  | 0, ts => if ts = [] then some [] else none
+  | _ + 1, [] => some []
+  | f + 1, "sv" :: ts => do
+    let (toks, r) ← pCounted tok ts
+    let ops ← toks.mapM pTraceOp
+    match r with
+    | "killed" :: k :: "disk" :: d :: "load" :: r => do
+      let kb ← bool? k
+      let dk ← pOptBytes d
+      let (l, r) ← takeLoad v r
+      let rest ← pHistObs v f r
+      pure (⟨ops, kb, dk, l⟩ :: rest)
+    | _ => none
+  | _ + 1, _ => none
+
+/-- how the model says a disk content loads -/
+def histLoad (v : HVar) (known : List (Bytes × String)) (disk : Option Bytes) : String :=
+  match v with
+  | .file => encLoaded (load 0 disk)
+  | .gen => encOptBytes disk
+  | .yaml =>
+    match disk with
+    | none => "none"
+    | some b =>
+      match known.find? (fun kv => kv.1 == b) with
+      | some kv => kv.2
+      | none => "undecodable"
+
+def histVariant : HVar → SaveProto.Variant
+  | .file => .fileFixed
+  | _ => .genFixed
+
+/-- model side: replay save after save through the fixed program, carrying the file system -/
+def histModel (v : HVar) (known : List (Bytes × String)) :
+    SaveProto.FS → List (Bytes × String) → List HistObs → List String → List String
+  | _, [], _, acc => acc
+  | _, _ :: _, [], acc => acc ++ ["missing-save"]
+  | fs, (data, _) :: saves, o :: obs, acc =>
+    let s0 : SaveProto.St := ⟨SaveProto.beginSave (histVariant v) fs, .start⟩
+    match TS.firstReject (SaveProto.step? (histVariant v) data) s0 o.ops 0 with
+    | some i => acc ++ [s!"reject@{i}"]
+    | none =>
+      match SaveProto.run (histVariant v) data s0 o.ops with
+      | none => acc ++ ["reject"]
+      | some s =>
+        if !o.killed && s.pc != .done then acc ++ ["incomplete"] else
+        let disk := SaveProto.crashKill s.fs
+        histModel v known s.fs saves obs
+          (acc ++ ["sv", encList encTraceOp o.ops, "killed", ofBool o.killed, "disk", encOptBytes disk,
+                   "load", histLoad v known disk])
+
+/-- oracle on the implementation's records: after every save the file under the real name is what
+    it was before that save or exactly that save's buffer, it loads to the old state or to a state
+    saved so far, and the observed syscalls keep it so on both levels -/
+def histOracle (allowed : List String) (prev : Option Bytes) :
+    List (Bytes × String) → List HistObs → Bool
+  | [], _ => true
+  | _ :: _, [] => false
+  | (data, ld) :: saves, o :: obs =>
+    let allowed' := allowed ++ [ld]
+    (o.disk == prev || o.disk == some data) && allowed'.contains o.load &&
+    histOracle allowed' o.disk saves obs
+
+def handleHist (args impl : List String) : Option (String × String) :=
+  match args with
+  | vt :: ho :: rest => do
+    let v ← if vt = "file" then some HVar.file else if vt = "gen" then some HVar.gen
+            else if vt = "yaml" then some HVar.yaml else none
+    let hasOld ← bool? ho
+    let (oldp, r) ← pPayload v rest
+    let (saves, r) ← pCounted (pHistSave v) r
+    if r ≠ [] then none
+    let old := if hasOld then some oldp.1 else none
+    let oldLoad := if hasOld then oldp.2 else
+      (match v with | .file => encLoaded (.ok []) | _ => "none")
+    let known := (if hasOld then [oldp] else []) ++ saves
+    match pHistObs v (impl.length + 1) impl with
+    | none => some ("bad-impl", "bad-impl")
+    | some obs =>
+      let fs0 := (SaveProto.init old).fs
+      let m := unwords (histModel v known fs0 saves obs [])
+      let p := histOracle [oldLoad] old saves obs &&
+               histGood (histVariant v) fs0 ((saves.zip obs).map (fun (sv, o) => (sv.1, o.ops)))
+      some (m, if p then "ok" else "fail")
+  | _ => none
+
 def handle (cmd : String) (args impl : List String) : Option (String × String) :=
   if cmd = "c07.rt" then handleRt args impl
   else if cmd = "c07.parse" then handleParse args impl
   else if cmd = "c07.seq" then handleSeq args impl
   else if cmd = "c07.proto" then handleProto args impl
   else if cmd = "c07.conc" then handleConc args impl
+  else if cmd = "c07.hist" then handleHist args impl
   else none
 
 end FileD.DrvC07
